@@ -241,6 +241,10 @@ class RealServers:
                 if conn.out:
                     data = bytes(conn.out)
                     del conn.out[:len(data)]
+                    d = peer.spec.get('reply_delay') if hasattr(peer, 'spec') else None
+                    if d:
+                        import time as _t
+                        _t.sleep(d)              # a slow but answering peer (real time: engine B only)
                     s.sendall(data)
                 if conn.closed_by_server and not conn.out:
                     if getattr(conn, 'reset', False):
